@@ -59,7 +59,16 @@ func (h echoHandler) ServeNostr(ctx context.Context, send chan<- mocrelay.Server
 					return ctx.Err()
 				}
 			case *mocrelay.ClientEventMsg:
-				if !put(mocrelay.NewServerOKMsg(m.Event.ID, true, "", "downstream")) {
+				// downstream's verdict is its own business: some ids are refused with the prefixes a
+				// storage handler uses under load; the window of the filter in front does not depend on it
+				acc, prefix := true, ""
+				switch h.conc.Label(m.Event.ID) {
+				case "z":
+					acc, prefix = false, mocrelay.MachineReadablePrefixRateLimited
+				case "w":
+					acc, prefix = false, mocrelay.MachineReadablePrefixError
+				}
+				if !put(mocrelay.NewServerOKMsg(m.Event.ID, acc, prefix, "downstream")) {
 					return ctx.Err()
 				}
 			case *mocrelay.ClientCountMsg:
@@ -136,6 +145,25 @@ func setKey(s []string) string { c := append([]string{}, s...); sort.Strings(c);
 
 // one step of each kind against a real session; returns the observed decision
 func quotaStep(ss *stepSession, a, x string) (fwd bool, err error) {
+	if a == "COUNT" {
+		outs, err := ss.do(&mocrelay.ClientCountMsg{SubscriptionID: x, ReqFilters: []*mocrelay.ReqFilter{{}}}, func(m mocrelay.ServerMsg) bool {
+			switch m := m.(type) {
+			case *mocrelay.ServerCountMsg:
+				return m.SubscriptionID == x
+			case *mocrelay.ServerClosedMsg:
+				return m.SubscriptionID == x
+			}
+			return false
+		})
+		if err != nil {
+			return false, err
+		}
+		if len(outs) != 1 {
+			return false, fmt.Errorf("COUNT %s answered by %d messages", x, len(outs))
+		}
+		_, isCount := outs[0].(*mocrelay.ServerCountMsg)
+		return isCount, nil
+	}
 	if a == "REQ" || a == "REQX" {
 		filters := []*mocrelay.ReqFilter{{}}
 		if a == "REQX" { // three filters: refused by max_filters = 2 of the NIP-11 chain
@@ -185,11 +213,11 @@ func recvUniqueStep(ss *stepSession, conc *abs.Conc, id string) (passed bool, er
 		return false, fmt.Errorf("EVENT %s answered by %d messages", id, len(outs))
 	}
 	ok := outs[0].(*mocrelay.ServerOKMsg)
+	if ok.Msg == "downstream" {
+		return true, nil // the event was forwarded; the reply (accepting or not) is downstream's
+	}
 	if ok.Accepted {
-		if ok.Msg != "downstream" {
-			return false, fmt.Errorf("accepting OK not from downstream")
-		}
-		return true, nil
+		return false, fmt.Errorf("accepting OK not from downstream")
 	}
 	if ok.MsgPrefix != mocrelay.MachineReadablePrefixDuplicate {
 		return false, fmt.Errorf("suppressed EVENT answered without the duplicate: prefix (%q)", ok.Message())
@@ -293,7 +321,7 @@ func C18(run *core.Run) {
 				},
 			} {
 				h := mk() // one middleware value shared by all concurrent sessions
-				actions := []string{"REQ a", "REQ b", "REQ c", "REQ d", "CLOSE a", "CLOSE b", "CLOSE c"}
+				actions := []string{"REQ a", "REQ b", "REQ c", "REQ d", "CLOSE a", "CLOSE b", "CLOSE c", "COUNT a", "COUNT d"}
 				var hist [][]string
 				var gen func(prefix []string)
 				gen = func(prefix []string) {
